@@ -2,3 +2,5 @@
 import Thanos.Driver.Dedup
 import Thanos.Props.C01
 import Thanos.Props.C02
+import Thanos.Props.C04
+import Thanos.Props.C40
